@@ -145,6 +145,17 @@ pub fn generate(rng: &mut Rng, prop: Prop) -> Scenario {
         let mut bounds = vec![0usize];
         bounds.extend(cuts);
         bounds.push(payload.len());
+        // a record holds at most 2^14+256 bytes: larger pieces are cut again
+        let mut fine = vec![0usize];
+        for w in bounds.windows(2) {
+            let mut a = w[0];
+            while w[1] - a > 16640 {
+                a += *rng.pick(&[16640usize, 16384, 9000]);
+                fine.push(a);
+            }
+            fine.push(w[1]);
+        }
+        let bounds = fine;
         // records above the record cap only in direct mode
         let n = bounds.len() - 1;
         let mut clean = true;
@@ -354,6 +365,13 @@ fn one(ctx: &mut Ctx, data: &[u8], hdr: &TlsRecordHeader) -> Option<Summary> {
     ctx.call("parse_tls_record_with_header", data.len(), 0, || summarize(parse_tls_record_with_header(data, hdr), &mut sl))
 }
 
+/// The statement names the error kind of three refusals (Tag, TooLarge, NonEmpty) and says the
+/// completing call "returns exactly what parsing the unsplit payload returns"; which kind an idle
+/// parser reports for a record it rejects on its own is not stated.
+fn kind_matters(expected: &Outcome, completing_call: bool) -> bool {
+    completing_call || matches!(expected.kind, Some(ErrorKind::Tag) | Some(ErrorKind::TooLarge) | Some(ErrorKind::NonEmpty))
+}
+
 fn is_complete_code(o: &Outcome) -> bool {
     o.is_rejection() && o.kind == Some(ErrorKind::Complete)
 }
@@ -456,8 +474,9 @@ pub fn execute(scn: &Scenario, ctx: &mut Ctx) {
             let rec_len = record.data.len();
             let hdr = record.hdr;
 
-            if hdr_len as usize != data.len() {
-                // not a record parse_tls_raw_record can produce: the statement does not say how such a
+            if hdr_len as usize != data.len() || data.len() > 16640 {
+                // not a record parse_tls_raw_record can produce (header length at odds with the data, or
+                // more data than the record-length cap allows): the statement does not say how such a
                 // hand-built record is treated; only C01's no-panic / heap invariants apply until reset()
                 desync = true;
             }
@@ -466,6 +485,10 @@ pub fn execute(scn: &Scenario, ctx: &mut Ctx) {
             // (the heap allowance is computed from what the real parser holds, not from the model, which
             // is suspended while desynchronised)
             let before_len = parser.verif_defrag_buffer().len();
+            let before_sum = {
+                let b = parser.verif_defrag_buffer();
+                mix_bytes(b.len() as u64, &b[..b.len().min(1 << 16)])
+            };
             let real_idle_before = !parser.defrag_in_progress();
             let mut from_buffer = false;
             let mut alert_ccs_truncated = false;
@@ -596,7 +619,7 @@ pub fn execute(scn: &Scenario, ctx: &mut Ctx) {
                     ctx.violate(Prop::C07, "defrag-model/result-class", || {
                         format!("op {} ({} type={} len={}): model expects {}, parser answered {}", opno, it.kind, ctype, rec_len, exp.show(), got.show())
                     });
-                } else if got.out.kind != exp.out.kind {
+                } else if got.out.kind != exp.out.kind && kind_matters(&exp.out, before_cur == Some(ctype) && !nocopy) {
                     ctx.violate(Prop::C07, "defrag-model/error-kind", || {
                         format!("op {} ({} type={} len={}): model expects {}, parser answered {}", opno, it.kind, ctype, rec_len, exp.show(), got.show())
                     });
@@ -616,6 +639,11 @@ pub fn execute(scn: &Scenario, ctx: &mut Ctx) {
                     // "a record that parses on its own is returned without buffering": the result of the
                     // fast path refers to the caller's record (where a completed defragmentation keeps its
                     // bytes is the implementation's business; its CONTENT is compared above)
+                    let b = parser.verif_defrag_buffer();
+                    let changed = mix_bytes(b.len() as u64, &b[..b.len().min(1 << 16)]) != before_sum;
+                    if rec_len > 0 && changed && (b.len() == before_len + rec_len || b == record.data) && b.ends_with(record.data) {
+                        ctx.violate(Prop::C07, "defrag-model/buffered-on-fast-path", || format!("op {}: record of {} bytes parsed on its own, but it was copied into the defragmentation buffer ({} bytes before the call, {} after)", opno, rec_len, before_len, b.len()));
+                    }
                     if let Some((_, label, off, l)) = visit::first_outside(&sl, rec_base, rec_len) {
                         let _ = off;
                         ctx.violate(Prop::C07, "defrag-model/buffered-on-fast-path", || {
